@@ -6,6 +6,9 @@ package main
 
 import (
 	"fmt"
+	"hash/adler32"
+	"hash/crc32"
+	"hash/fnv"
 	"os"
 	"path/filepath"
 	"reflect"
@@ -164,6 +167,16 @@ func buildPool(root string, seed uint64, corrupt, churn, large int) error {
 			continue
 		}
 		p.inputs = append(p.inputs, input{text: txt, origin: "sibling:" + src.origin, entry: src.entry, paths: src.paths, family: src.family, class: clsSibling})
+	}
+	// fingerprint collisions: pairs of equal length and equal cheap checksum (FNV-1/1a,
+	// CRC-32, Adler-32, byte sum) whose line structure differs, found by a birthday search
+	// over a tag in a comment; same paths (what a cache keyed by a 32-bit fingerprint confuses)
+	for i, pr := range collisionPairs(rng) {
+		pth := [2]uint8{uint8(i % 3), uint8((i + 1) % 3)}
+		fam := int32(len(p.inputs))
+		for _, txt := range pr {
+			p.inputs = append(p.inputs, input{text: txt, origin: "collision", entry: eParseQuery, paths: pth, family: fam, class: clsSibling})
+		}
 	}
 	// context families: one oddly-cased spelling of a keyword in several syntactic slots
 	// (keyword position, after a dot, alias, back-quoted, function name, parameter, string):
@@ -343,6 +356,53 @@ func siblingText(r *rng, s string) string {
 		b[sp[r.intn(len(sp))]] = '\n'
 	}
 	return string(b)
+}
+
+// collisionPairs returns, for each cheap checksum, pairs (A, B): same length, same
+// checksum, both end in a syntax error, newlines at different offsets.
+func collisionPairs(r *rng) [][2]string {
+	sums := []func(string) uint32{
+		func(s string) uint32 { h := fnv.New32a(); h.Write([]byte(s)); return h.Sum32() },
+		func(s string) uint32 { h := fnv.New32(); h.Write([]byte(s)); return h.Sum32() },
+		func(s string) uint32 { return crc32.ChecksumIEEE([]byte(s)) },
+		func(s string) uint32 { return crc32.Checksum([]byte(s), crc32.MakeTable(crc32.Castagnoli)) },
+		func(s string) uint32 { return adler32.Checksum([]byte(s)) },
+		func(s string) uint32 {
+			var x uint32
+			for i := 0; i < len(s); i++ {
+				x = x*31 + uint32(s[i])
+			}
+			return x
+		},
+	}
+	tag := func(n uint32) string {
+		b := make([]byte, 6)
+		for i := range b {
+			b[i] = 'a' + byte(n%26)
+			n /= 26
+		}
+		return string(b)
+	}
+	var out [][2]string
+	for _, sum := range sums {
+		formA := func(t string) string { return "SELECT id, name  -- " + t + "\nFROM users\nWHERE id = )" }
+		formB := func(t string) string { return "SELECT id, name /*" + t + "*/ FROM users WHERE\nid = )" }
+		seen := map[uint32]uint32{}
+		const n = 90000
+		base := uint32(r.next())
+		for i := uint32(0); i < n; i++ {
+			seen[sum(formA(tag(base+i)))] = base + i
+		}
+		found := 0
+		for i := uint32(0); i < 4*n && found < 2; i++ {
+			t := tag(base ^ 0x5bd1e995 + i*7)
+			if a, ok := seen[sum(formB(t))]; ok {
+				out = append(out, [2]string{formA(tag(a)), formB(t)})
+				found++
+			}
+		}
+	}
+	return out
 }
 
 var contextKeywords = []struct{ word, natural string }{
